@@ -294,8 +294,10 @@ func decodeJSON(b []byte) (interface{}, error) {
 	return v, nil
 }
 
-// SameJSON reports "" when the two JSON texts denote the same tree (numbers by exact decimal value).
-func SameJSON(want, got []byte) string {
+// SameJSON reports "" when the two JSON texts denote the same tree. exact: numbers are compared by
+// exact decimal value and "-0" differs from "0" (Go data: uint64 digits matter); otherwise as the
+// doubles they denote (JavaScript data: the spelling of a double is JSON.stringify's business).
+func SameJSON(want, got []byte, exact bool) string {
 	w, err := decodeJSON(want)
 	if err != nil {
 		return "reference JSON does not parse: " + err.Error()
@@ -304,10 +306,10 @@ func SameJSON(want, got []byte) string {
 	if err != nil {
 		return fmt.Sprintf("not valid JSON (%v): %.80s", err, got)
 	}
-	return sameTree(w, g, "$")
+	return sameTree(w, g, "$", exact)
 }
 
-func sameTree(w, g interface{}, p string) string {
+func sameTree(w, g interface{}, p string, exact bool) string {
 	switch wv := w.(type) {
 	case nil:
 		if g != nil {
@@ -326,9 +328,17 @@ func sameTree(w, g interface{}, p string) string {
 		if !ok {
 			return fmt.Sprintf("%s: %v, want number %s", p, g, wv)
 		}
+		if !exact {
+			x, e1 := strconv.ParseFloat(string(wv), 64)
+			y, e2 := strconv.ParseFloat(string(gv), 64)
+			if e1 != nil || e2 != nil || x != y {
+				return fmt.Sprintf("%s: %s, want %s", p, gv, wv)
+			}
+			return ""
+		}
 		a, ok1 := new(big.Rat).SetString(string(wv))
 		b, ok2 := new(big.Rat).SetString(string(gv))
-		if !ok1 || !ok2 || a.Cmp(b) != 0 || strings.HasPrefix(string(wv), "-") != strings.HasPrefix(string(gv), "-") {
+		if !ok1 || !ok2 || a.Cmp(b) != 0 || (strings.HasPrefix(string(wv), "-") != strings.HasPrefix(string(gv), "-")) {
 			return fmt.Sprintf("%s: %s, want %s", p, gv, wv)
 		}
 	case []interface{}:
@@ -337,7 +347,7 @@ func sameTree(w, g interface{}, p string) string {
 			return fmt.Sprintf("%s: %v, want array of %d", p, g, len(wv))
 		}
 		for i := range wv {
-			if r := sameTree(wv[i], gv[i], fmt.Sprintf("%s[%d]", p, i)); r != "" {
+			if r := sameTree(wv[i], gv[i], fmt.Sprintf("%s[%d]", p, i), exact); r != "" {
 				return r
 			}
 		}
@@ -356,7 +366,7 @@ func sameTree(w, g interface{}, p string) string {
 			if !ok {
 				return fmt.Sprintf("%s: key %q missing", p, k)
 			}
-			if r := sameTree(wv[k], ge, p+"."+k); r != "" {
+			if r := sameTree(wv[k], ge, p+"."+k, exact); r != "" {
 				return r
 			}
 		}
